@@ -397,6 +397,19 @@ func (sr *syncRun) feedHeaders() bool {
 			return false
 		}
 	}
+	if sr.sp.BadPM > 0 && r.tape.Chance(sr.sp.BadPM, 1000) {
+		// a batch that overlaps what the node knows with forged content and continues it with a header signed by the
+		// key the forged one names
+		if base, gerr := sr.T.BC.GetHeader(sr.T.BC.GetHeaderHash(hh)); gerr == nil {
+			x, n := r.forgedHeaders(base)
+			err := m.AddHeaders(x, n)
+			r.out.Faults["forged_header_batch"]++
+			if sr.T.BC.HeaderHeight() >= n.Index && sr.T.BC.GetHeaderHash(n.Index) == n.Hash() {
+				r.violate(sim.Violatef("sync-bad-data-accepted", "sync-bad-data-accepted/forged-header-batch", "header %d signed by a key that only the preceding header of the same batch (index %d, known with other content) names as next consensus was accepted (err=%v)", n.Index, x.Index, err))
+				return false
+			}
+		}
+	}
 	err := m.AddHeaders(hs...)
 	if err != nil && start == hh+1 {
 		r.violate(sim.Violatef("sync-headers-rejected", "", "valid headers %d..%d rejected: %v", hs[0].Index, hs[len(hs)-1].Index, err))
